@@ -900,6 +900,13 @@ impl<'a> Renderer<'a> {
                     self.class("offset");
                     sql.push_str(&format!(" OFFSET {}", o % 5));
                 }
+            } else if let (Some(o), true) = (s.offset, s.order.len() == 1 && !info.order.is_empty()) {
+                // OFFSET without LIMIT (only under an ORDER BY, one time in three)
+                if o % 3 == 0 {
+                    self.class("offset_without_limit");
+                    sql.push_str(&format!(" OFFSET {}", (o / 3) % 3));
+                    info.has_limit = true;
+                }
             }
         }
         (sql, info)
